@@ -77,6 +77,13 @@ REGISTRY = {
                              'attribute names identify state (the inventory is by function and normalised target text)'],
                 trusted=['state inventory classification rules in contracts/C14.py (reviewed by hand once)',
                          'call graph over-approximated by method name']),
+    'C15': dict(module='contracts.C15', level='proof',
+                native=native_sweep('c15_roundtrip.py', 'write -> read -> compare (objects with tags / tapers / transformations, sources, every load kind and attachment form, media) -> write again, on generated accepted command lines', 150, 4000),
+                undecided=['sequence-level clauses (every load written once, load numbering, transformation order) and the option classes '
+                           'without a round-trip unit (--rlc/--trap/--laplace loads, --attach-load lines, distributed loads, --geo-*) are covered by the bounded native round trip only'],
+                trusted=['% conversions render within their classes (sign x plain/exponent); Python\'s complex() decides the literal grammar on representatives',
+                         'argparse: type=complex applied to the value text; action=append keeps command-line order',
+                         'field equality to printed precision: a %g-family token carries its value']),
     'C16': dict(module='contracts.C16', level='proof',
                 native=native_sweep('c16_points.py', 'near-field point count / coordinates / order for every count 1..100 per axis over a lattice of starts and steps (0.1, 0.05, negative, ...), far-field row count and order, numpy index axioms at small shapes', 15, 400),
                 undecided=[],
